@@ -80,8 +80,14 @@ def spec_term(case, ob) -> str:
             exp = C.clist(sp["ips_expected"], lambda b: C.cpair(C.zlist(b[0]), C.z(b[1])))
             return (f"(SBlocksI {C.cbool(sp['high'])} {C.cbool(sp.get('user_map', False))} [{';'.join(ns)}] "
                     f"{C.z(tr['end_pc'])} {exp})")
-        return (f"(SBlocks {C.cbool(sp['high'])} {C.cbool(sp.get('user_map', False))} [{';'.join(ns)}] "
-                f"{C.z(tr['end_pc'])})")
+        blocks = (f"(SBlocks {C.cbool(sp['high'])} {C.cbool(sp.get('user_map', False))} [{';'.join(ns)}] "
+                  f"{C.z(tr['end_pc'])})")
+        if sp.get("user_ranges"):
+            # the bank ranges the program's own .map lines declare, in order: (first bank, last bank, window, writable)
+            rs = C.clist(sp["user_ranges"], lambda r: f"{{| m_first := {C.z(r[0])}; m_last := {C.z(r[1])}; m_mask := {C.z(r[2])}; "
+                                                      f"m_writable := {C.cbool(r[3])} |}}")
+            return f"(SAnd {blocks} (SUserOffsets {rs} [{';'.join(ns)}]))"
+        return blocks
     raise ValueError(t)
 
 
